@@ -33,14 +33,22 @@ def configs(tier):
     # static cells visit every transport themselves
     c.append(("tp=tls,mode=static,part=all", 0))
     c.append(("tp=tls,mode=static,part=all", 0, "asan"))
-    for tp, tls in (("tcp", 0), ("btcp", 0), ("tls", 1), ("btls", 1), ("utlstls", 1)):
+    TPS = (("tcp", 0), ("btcp", 0), ("tls", 1), ("btls", 1), ("utlstls", 1))
+    for tp, tls in TPS:
         # singles with every deviation pattern <= D; ordered pairs of tcp.* sets; pairs over all attributes
-        c.append(("tp=%s,mode=hist,depth=1,menu=0x%x" % (tp, 0xfff), (0 if tls else 1) if q else (2 if tls else 3)))
+        c.append(("tp=%s,mode=hist,depth=1,menu=0x%x" % (tp, 0xfff), (0 if tls else 1) if q else (1 if tls else 2)))
         if not (q and tp in ("btls", "utlstls")):      # quick: the pair histories of the TLS class on tls only
-            c.append(("tp=%s,mode=hist,depth=2,tcponly=1" % tp, 0 if q or tls else 1))
+            c.append(("tp=%s,mode=hist,depth=2,tcponly=1" % tp, 0))
         if not q:
             c.append(("tp=%s,mode=hist,depth=2" % tp, 0))
-        c.append(("tp=%s,mode=accept,depth=%d" % (tp, 1 if q and tls else 2), (0 if tls else 1) if q else (1 if tls else 2)))
+        c.append(("tp=%s,mode=accept,depth=%d" % (tp, 1 if q and tls else 2), (0 if tls else 1) if q else 1))
+    if not q:
+        # the deepest levels last (a tier deadline cuts from the end): pairs with one deviation, accept side with two
+        for tp, tls in TPS:
+            if not tls:
+                c.append(("tp=%s,mode=hist,depth=2,tcponly=1" % tp, 1))
+                c.append(("tp=%s,mode=accept,depth=2" % tp, 2))
+        c.append(("tp=tls,mode=hist,depth=1,menu=0x%x" % 0xfff, 2))
     return c
 
 
